@@ -33,6 +33,9 @@ type Desc struct {
 	// YieldPoint (setting "conn+yield"): the first goroutine arriving at this library yield point is
 	// held for the connection-wide timeout plus 60 ms - a schedule a loaded machine could produce.
 	YieldPoint string `json:"yield_point,omitempty"`
+	// J (setting "writeblock", login scenarios only): the J-th transport write of the login blocks
+	// (the peer stopped draining) until the transport is closed.
+	J int `json:"j,omitempty"`
 	// K2 (setting "paced"): the device is slow but alive: it pauses at byte K for 3 s, then goes on
 	// and falls silent for good after byte K2. The 4 s timeout runs from the start of the operation.
 	K2 int `json:"k2,omitempty"`
@@ -170,6 +173,10 @@ func runOnce(d Desc, sc *scen.Scenario) mon.Result {
 	if sc.Pre == nil {
 		cfg.Fault, cfg.FaultAt = devsim.FaultStall, d.K
 	}
+	if d.Setting == "writeblock" {
+		cfg.Fault, cfg.FaultAt = devsim.FaultNone, 0
+		cfg.WriteBlockN = d.J
+	}
 	s, err := sc.New(cfg, connWide)
 	if err != nil {
 		return mon.Result{Verdict: mon.Inconclusive, Detail: "constructor: " + err.Error()}
@@ -303,6 +310,9 @@ func runOnce(d Desc, sc *scen.Scenario) mon.Result {
 			return viol("c05/late:"+d.Setting+":"+d.Scenario, "timeout error returned after %s; configured timeout %s (+%s slack)", el.Round(time.Millisecond), T, slack)
 		}
 		tags = append(tags, "latency="+bucket(el-T))
+		if d.Setting == "writeblock" && s.Conn.CloseCalls() < 1 {
+			return viol("c05/transport-left-open:"+d.Scenario, "Open failed with %q but the transport was not closed", r.err)
+		}
 	}
 	// recovery clause
 	recovered := false
@@ -407,7 +417,7 @@ func gen(tier string, seed int64) []mon.Case {
 	var cs []mon.Case
 	n := 0
 	add := func(d Desc) {
-		cs = append(cs, mon.MkCase(fmt.Sprintf("c05/%05d-%s-%s-k%d", n, d.Scenario, d.Setting, d.K), d))
+		cs = append(cs, mon.MkCase(fmt.Sprintf("c05/%05d-%s-%s-k%d-j%d", n, d.Scenario, d.Setting, d.K, d.J), d))
 		n++
 	}
 	segs := []devsim.Seg{{Mode: "fixed", Size: 7, Seed: seed}, {Mode: "mix", Size: 16, Seed: seed + 1, Delay: "gosched"}, {Mode: "whole", Seed: seed + 2}}
@@ -462,6 +472,13 @@ func gen(tier string, seed int64) []mon.Case {
 				}
 				for _, pr := range pairs {
 					add(Desc{Scenario: sc.Name, K: pr[0], K2: pr[1], Setting: "paced", Seg: seg, Base: st.Base, S: st.S, Want: st.Want, CmdAt: st.CmdAt})
+				}
+			}
+			if si == 0 && sc.IsOpen && sc.Driver == "generic" {
+				// in-channel login with a peer that stops draining what we type: the login must still
+				// end in a timeout error (only explored for the login, whose deadline is a timer of its own)
+				for j := 1; j <= st.Writes; j++ {
+					add(Desc{Scenario: sc.Name, K: st.S, J: j, Setting: "writeblock", Seg: seg, Base: st.Base, S: st.S, Want: st.Want, CmdAt: st.CmdAt})
 				}
 			}
 			if sc.PerOp && si == 0 {
